@@ -95,6 +95,8 @@ def _(sg, x, A): return x[0].clone()
 def _(sg, x, A): return x[0].exp()
 @op("log", lambda t, a, A: t.log(a[0]))
 def _(sg, x, A): return x[0].log()
+@op("log_scaled", lambda t, a, A: t.log(a[0] * A["c"] + 1e-12))
+def _(sg, x, A): return (x[0] * A["c"]).log()      # log at arguments of size c (1e-12 ... 1e-6): differentiated in the scaled variable
 @op("sqrt", lambda t, a, A: t.sqrt(a[0]))
 def _(sg, x, A): return x[0].sqrt()
 
@@ -274,6 +276,9 @@ def cases(tier, what="forward"):
                 add(o, [s], {"c": c})
         add("neg", [s]); add("neg_fn", [s]); add("clone", [s]); add("exp", [s])
         add("log", [s], pats=["positive"]); add("sqrt", [s], pats=["positive"])
+        if not wide and len(s) <= 2:
+            for c in (1e-12, 1e-10, 1e-7):     # where the 1e-12 guard inside log() matters: backward must differentiate what forward computes
+                add("log_scaled", [s], {"c": c}, pats=["positive"])
         for n in POW_N:
             add("pow", [s], {"n": n}, pats=["positive"])
         for n in (2, 3, -1, -2, 1, 0):
